@@ -93,3 +93,10 @@ From V Require Generated.Guards Proofs.CStaticProofs.
 Theorem C19_c_glue_has_no_static_scratch : Guards.c_static_mutable_locals = nil.
 Proof. exact CStaticProofs.c_glue_has_no_static_scratch. Qed.
 Print Assumptions C19_c_glue_has_no_static_scratch.
+
+(* the only state shared between goroutines besides the arguments: every package-level variable of
+   the Go packages (regenerated) is init-once, a read-only table, or the PoP KMAC instance *)
+Theorem C19_package_state_is_reviewed :
+  Guards.go_package_state = List.map fst CStaticProofs.reviewed_package_state.
+Proof. exact CStaticProofs.package_state_is_reviewed. Qed.
+Print Assumptions C19_package_state_is_reviewed.
